@@ -302,12 +302,28 @@ def run(tier, replay):
                            "observed": {k: r.get(k) for k in ("ok", "v", "c")}, "rendered_text": r["text"],
                            "expected": "Strings.tla definition of " + r["fn"]}, feats, name=r["fn"].replace("$", ""))
     os.remove(path)
+    # whole programs built from the functions (loops, nests, handlers, calls): judged end to end by Core.tla
+    import c17, features
+    from corecheck import CoreRun, describe
+    pcases = c17.cases(tier, seed())
+    cr = CoreRun("C17", pool, budget=200000)
+    cr.execute(pcases, None)
+    cr.validate(pcases)
+    pv = {"agree": 0, "mismatch": 0, "skip": 0}
+    pf = {}
+    for c in pcases:
+        pv[c["verdict"]] += 1
+        fam = c["fam"].split(":")[0] + ":" + c["fam"].split(":")[-1] if ":" in c["fam"] else c["fam"]
+        pf[fam] = pf.get(fam, 0) + 1
+        if c["verdict"] == "mismatch":
+            rep.violation(describe(c), features.of_case(c), name="prog-" + c["fam"].split(":")[-1].replace("$", ""))
     kinds = {}
     for r in final:
         kinds[r["fn"]] = kinds.get(r["fn"], 0) + 1
     coverage = {
-        "states": states + res2.distinct, "transitions": trans + res2.generated,
-        "traces_validated_against_impl": len(final),
+        "states": states + res2.distinct + cr.states, "transitions": trans + res2.generated + cr.transitions,
+        "traces_validated_against_impl": len(final) + pv["agree"] + pv["mismatch"],
+        "whole_programs": {"verdicts": pv, "families": pf, "judge": "Core.tla (built-in functions = Strings.tla) via Trace_Core.tla"},
         "samples": [{k: v for k, v in r.items() if k != "text"} for r in final[:: max(1, len(final) // 3)][:3]] + [{"program": programs[0][0]}],
         "evaluations": len(final), "distinct_nontrivial": len(final),
         "rule": "all strings up to length 2 (thorough 5) over {a, B, blank, CHR$(200)} x all counts/positions in -1..7 for "
